@@ -83,6 +83,13 @@ def run(ctx):
         ctx.settle(lambda: search(ctx))
         return
     reserved, load_word = tables["reserved"], tables["load_word"]
+    # continuation lines are generated for every documented connective and every connective literal the
+    # parsers test, not only for the extracted Reserved list (which is what the model's rule uses)
+    split_words = list(dict.fromkeys(list(reserved) + translate.DOCUMENTED))
+    missing = [w for w in tables["parser_connectives"] if w in translate.DOCUMENTED and w not in reserved]
+    ctx.extra["parser_connectives"] = tables["parser_connectives"]
+    if missing:
+        ctx.tie_broken("static", "connective literals tested by the parsers but not in Reserved", repr(missing))
     ctx.extra["tables"] = {"reserved": reserved, "load_word": load_word, "last_mode": tables["last_mode"]}
     ctx.coq_build("C16/Props.v")
 
@@ -136,6 +143,9 @@ def run(ctx):
     # ---- C: grammar layouts of random commands ----------------------------------------------
     def add_doc(cmd_toks, lay, kind, coq_doc=True):
         doc = lay.document(cmd_toks, pc=ctx.rng.choice([0.2, 0.6, 1.0]), pb=ctx.rng.choice([0.0, 0.2, 0.5]))
+        # the Coq document form needs every continuation segment to start with an EXTRACTED reserved word
+        if any(L.seg_toks(sg)[0] not in reserved for c in doc[0] for _fl, sg in c[2]):
+            coq_doc = False
         lines = L.render(doc)
         txt = file_text(lines)
         rec = flolib.record_commands(ctx.work, txt)
@@ -151,14 +161,14 @@ def run(ctx):
                            "observed_commands": rec, "expected_commands": want})
         return txt
 
-    heads = [w for w in WORDS if w not in reserved and L.classify(w)]
-    okwords = [w for w in WORDS if L.classify(w)] + [w for w in reserved if L.classify(w)]
+    heads = [w for w in WORDS if w not in split_words and L.classify(w)]
+    okwords = [w for w in WORDS if L.classify(w)] + [w for w in split_words if L.classify(w)]
     for i in range(ctx.n(250, 2500)):
         cmds = []
         for _ in range(ctx.rng.randint(1, 5)):
             c = [ctx.rng.choice(heads)] + [ctx.rng.choice(okwords) for _ in range(ctx.rng.randint(0, 7))]
             cmds.append([L.classify(w) for w in c])
-        lay = L.Layouter(ctx.rng, reserved, load_word, tabs=(i % 3 != 0), wild=(i % 2 == 0))
+        lay = L.Layouter(ctx.rng, split_words, load_word, tabs=(i % 3 != 0), wild=(i % 2 == 0))
         add_doc(cmds, lay, "C:layout")
 
     # ---- D: example plans -------------------------------------------------------------------
@@ -174,7 +184,7 @@ def run(ctx):
             lines = lines[:-1]
         rec = add_raw(lines, last_nl, kind="D:plan-raw")
         nplans += 1
-        toks = L.classify_cmds(rec, set(reserved))
+        toks = L.classify_cmds(rec, set(split_words))
         if toks is None:
             continue
         canon_txt = file_text(L.render(L.canonical(toks)))
@@ -191,7 +201,7 @@ def run(ctx):
                 ctx.tie_broken("correspondence", "house built by dispatch alone differs from the file build",
                                "plan=%s" % os.path.basename(path))
         for j in range(ctx.n(2, 10)):
-            lay = L.Layouter(ctx.rng, reserved, load_word, tabs=(j % 2 == 0), wild=(j % 3 == 0))
+            lay = L.Layouter(ctx.rng, split_words, load_word, tabs=(j % 2 == 0), wild=(j % 3 == 0))
             txt = add_doc(toks, lay, "D:plan-layout", coq_doc=(len(rec) <= 40 and j == 0))
             if buildable:
                 got = flolib.build_text(ctx.work, txt)
@@ -278,13 +288,16 @@ def search(ctx):
     if best is None:
         try:
             tables = translate.extract(ctx.repo)
-            reserved, load_word = tables["reserved"], tables["load_word"]
+            reserved = list(dict.fromkeys(list(tables["reserved"]) + translate.DOCUMENTED))
+            load_word = tables["load_word"]
         except Exception:
-            reserved = ["to", "by", "with", "from", "per", "for", "cum", "qua", "via", "as", "at", "in", "of",
-                        "on", "re", "is", "if", "be", "into", "and", "not", "+-", "==", "<", "<=", ">=", ">", "!="]
+            reserved = list(translate.DOCUMENTED)
             load_word = "load"
         corpus = [[["put", "true", "into", "x"]], [["frame", "a"], ["go", "b", "if", "x", "of", "me"]],
-                  [["print", "\"a  b\""], ["load", "f.flo"], ["set", "x", "to", "5"]]]
+                  [["print", "\"a  b\""], ["load", "f.flo"], ["set", "x", "to", "5"]],
+                  [["go", "next", "if", "not", "x", "is", "done", "and", "not", "y", "is", "done"]],
+                  [["go", "b", "if", "x", "==", "5", "+-", "1"], ["aux", "h", "as", "mine", "via", "p"]],
+                  [[w2, "z"] + sum([[w, "v"] for w in translate.DOCUMENTED], []) for w2 in ["frame"]]]
         for cmds in corpus:
             toks = [[L.classify(w) for w in c] for c in cmds]
             for i in range(400):
